@@ -296,6 +296,39 @@ func registerNd(e *Engine) {
 		x.writeLog, x.mapWrites = nil, nil
 		return x.intTerm(viol)
 	}
+	I[p+"MathEqual"] = func(x *Exec, caller *frame, fn *ssa.Function, args []Value) Value {
+		// values are 64-bit patterns plus a signedness flag; compare as mathematical integers (65-bit)
+		ext := func(v *Term, signed *Term) *Term {
+			if !signed.IsConst() {
+				panic(x.unsupported("symbolic signedness flag"))
+			}
+			if signed.IsTrue() {
+				return x.ctx.SExt(v, 1)
+			}
+			return x.ctx.ZExt(v, 1)
+		}
+		return x.ctx.Eq(ext(args[0].(*Term), args[1].(*Term)), ext(args[2].(*Term), args[3].(*Term)))
+	}
+	I[p+"BigEqual"] = func(x *Exec, caller *frame, fn *ssa.Function, args []Value) Value {
+		// big.Int value == (64-bit pattern, signedness)
+		s := x.bigSigned(x.bigCell(args[0]))
+		v, signed := args[1].(*Term), args[2].(*Term)
+		var e *Term
+		if signed.IsTrue() {
+			e = x.ctx.SExt(v, s.W-64)
+		} else {
+			e = x.ctx.ZExt(v, s.W-64)
+		}
+		return x.ctx.Eq(s, e)
+	}
+	I[p+"BigInt"] = func(x *Exec, caller *frame, fn *ssa.Function, args []Value) Value {
+		// arbitrary *big.Int with |v| < 2^128
+		name := x.concreteStr(args[0], "nd name")
+		c := x.newBig("nd.BigInt")
+		mag := x.ctx.ZExt(x.ctx.Concat(x.ndVar(name+".hi", 64), x.ndVar(name+".lo", 64)), bigW-128)
+		x.bigSet(c, x.ndVar(name+".neg", 0), mag)
+		return c
+	}
 	I[p+"ExportPC"] = func(x *Exec, caller *frame, fn *ssa.Function, args []Value) Value {
 		name := x.concreteStr(args[0], "export name")
 		x.res.Exports = append(x.res.Exports, PathExport{Name: name, PC: append([]*Term{}, x.pc...)})
